@@ -94,6 +94,10 @@ def findings_opt():
             {"e": "forin", "x": "e8", "et": SI, "src": var("g2"), "body": block(
                 {"e": "rset", "r": var("g5"), "i": 1, "v": lit(SI, 5), "rt": 0})})}),
         stmt(pr({"e": "rget", "r": var("g5"), "i": 1, "rt": 0}))], recs=[[SI]]))
+    # F10: lexically nested try expressions make the optimiser abort ("bad case") at -Q2+ (a generated program, kept whole)
+    import json as _json, os as _os
+    fj = _os.path.join(_os.path.dirname(_os.path.abspath(__file__)), "fixed_json", "F10_nested_try_optimiser.json")
+    out.append(_json.load(open(fj)))
     return out
 
 
